@@ -26,3 +26,23 @@ def run(tier, rep):
         "integer representations are int64_t and int32_t, the floating one is double; counts are integral",
         "the TLA+ reading of std::chrono is calibrated against libstdc++ on the identical inputs (zero deviations required)",
     ]
+
+
+def replay(path):
+    """Re-execute the recorded deviation: the inputs are enumerated by TLC (no randomness), so the whole etl side of
+    the tier is re-run on the current tree and the recorded event is looked up among the deviations.
+    Exit 1 (VIOLATION line) if it deviates again, 0 if the current tree no longer shows it."""
+    import json
+    import vlib
+    rec = json.load(open(path))
+    tier = os.environ.get("VERIF_TIER", "quick")
+    rep = vlib.Report("C12", tier)
+    duration.pipeline(tier, rep, calibrate=False)
+    same = [d for d in rep.devs if d.get("ev") == rec.get("event")]
+    if same:
+        print("VIOLATION property=C12 replay=%s" % path)
+        print("  kind=%s expected=%s" % (same[0]["kind"], json.dumps(same[0].get("expected"))[:300]))
+        return 1
+    print("not reproduced on this tree in tier %s (%d events validated, %d other deviation(s))"
+          % (tier, rep.cov["events_validated"], len(rep.devs)))
+    return 0
